@@ -15,7 +15,9 @@ def one(rnd):
   asts = []
   for i in range(n):
     r = rnd.random()
-    asts.append(ast.Expr(ast.Constant(0)) if r < 0.4 else ast.FunctionDef(name='g%d' % i, args=None, body=[], decorator_list=[])
+    # (names collide on purpose, among the nodes and with the pool: a later def of the same name must not
+    #  remove an earlier function object from what reaches)
+    asts.append(ast.Expr(ast.Constant(0)) if r < 0.4 else ast.FunctionDef(name='f%d' % rnd.randrange(3), args=None, body=[], decorator_list=[])
                 if r < 0.8 else ast.Lambda(args=None, body=None))
   nodes = [cfg.Node(set(), set(), a) for a in asts]
   for a in range(n):
